@@ -11,6 +11,7 @@ import string
 from collections import namedtuple, OrderedDict
 
 from pybufrkit.errors import PathExprParsingError, QueryError
+from pybufrkit.descriptors import ElementDescriptor
 from pybufrkit.templatedata import (
     ValueDataNode,
     FixedReplicationNode, DelayedReplicationNode, SequenceNode
@@ -405,6 +406,10 @@ class DataQuerent(object):
             else:
                 if isinstance(entry, ValueDataNode):
                     values.append(decoded_values[entry.index])
+                elif isinstance(entry.descriptor, ElementDescriptor):
+                    # An element whose data is not present (221YYY) is not populated
+                    # and contributes no value
+                    continue
                 else:
                     raise QueryError('cannot query valueless node: {}'.format(entry.descriptor))
 
